@@ -69,6 +69,11 @@ def cases(tier, seed):
         lines_cases += [(est, cv, sc) for est in EST for cv in ("kfold3", "blockkfold") for sc in (None, "neg_mean_squared_error")]
     for est, cv, sc in lines_cases:
         yield dict(kind="cvs", ds=0, est=est, w=True, cv=cv, scoring=SCORERS.index(sc), mode="delayed", bound=1, lines=True)
+    # the same, with the estimator's own numerical code traced as well (fit / predict / jacobian / least_squares of Trend in quick;
+    # of the Spline and KNeighbors in thorough): races on module-level scratch state inside a gridder
+    deep = [("T1", "kfold2")] + ([("S", "kfold2"), ("K2", "kfold2"), ("T1", "kfold3")] if tier == "thorough" else [])
+    for est, cv in deep:
+        yield dict(kind="cvs", ds=1, est=est, w=True, cv=cv, scoring=0, mode="delayed", bound=1, lines="deep")
     for ds in (0, 1):
         for mode in ("plain", "spacing", "shape"):
             for sd in range(6):
@@ -344,7 +349,12 @@ def run(case, rec):
 
         def run_sched(prefix):
             est = make_est(key, instrumented=True)
-            if case.get("lines"):
+            if case.get("lines") == "deep":
+                b = S.Baton(prefix, trace_files=("verde/model_selection.py", "verde/base/utils.py", "verde/base/base_classes.py", "verde/trend.py",
+                                                 "verde/spline.py", "verde/neighbors.py", "verde/base/least_squares.py"),
+                            trace_funcs=("fit_score", "score_estimator", "score", "predict", "fit", "jacobian", "least_squares", "predict_numpy",
+                                         "jacobian_numpy", "greens_func_numpy"))
+            elif case.get("lines"):
                 b = S.Baton(prefix, trace_files=("verde/model_selection.py", "verde/base/utils.py", "verde/base/base_classes.py"),
                             trace_funcs=("fit_score", "score_estimator", "score", "predict", "fit", "get_scorer"))
             else:
